@@ -6,6 +6,7 @@ CONSTANTS
   ValSet = {0, 1, 2, 3}
   Kinds = {"half_life_ramp"}
   RampLens = {10, 11, 12, 13}
+  ShiftHalves = {6}
   Elem <- ElemDef
 INVARIANTS NoUnderflow InRange ResultLaw EmitComposite
 PROPERTY Terminates
